@@ -231,6 +231,15 @@ def sv_port(inst, port, backend):
   return n, 0
 
 
+def port_width_mismatch(inst, maps):
+  """first (port, PyMTL width, declared width) whose declaration in the text has another width than the PyMTL port"""
+  for r, w, loc in maps:
+    if loc is None: continue
+    dw = inst.d.twidth(inst.vars[loc[0]][0])
+    if dw != w: return r, w, dw
+  return None
+
+
 def check_class(name, cls, backend, acc, vectors):
   """Two-way comparison for a hand-written component class: PyMTL simulation vs interpreted text."""
   from pymtl3 import DefaultPassGroup
@@ -268,6 +277,10 @@ def check_class(name, cls, backend, acc, vectors):
     omap = [(repr(p), p._dsl.Type.nbits, sv_port(inst, p, backend)) for p in outs]
   except KeyError as ex:
     acc.violation(f"{sig_prefix}:port-missing:{name}", case, "every PyMTL port appears in the emitted module", f"no port {ex}", name)
+    return "violation"
+  bad = port_width_mismatch(inst, imap + omap)
+  if bad:
+    acc.violation(f"{sig_prefix}:port-width-differs:{name}", case, f"{bad[0]} is {bad[1]} bits wide", f"declared with {bad[2]} bits in the text", name)
     return "violation"
   setters = {r: eval(f"lambda s, v: s.{r[2:]}.__imatmul__(v)") for r, w, _ in imap}
   getters = {r: eval(f"lambda s: int(s.{r[2:]})") for r, w, _ in omap}
@@ -334,6 +347,10 @@ def check_class_ref(name, cls, backend, acc, seqs, ref, sig_prefix=None):
     except KeyError as ex:
       acc.violation(f"{sig_prefix}:port-missing:{name}", case, "every PyMTL port appears in the emitted module", f"no port {ex}", name)
       return "violation"
+    bad = port_width_mismatch(inst, imap + omap) if inst else None
+    if bad:
+      acc.violation(f"{sig_prefix}:port-width-differs:{name}", case, f"{bad[0]} is {bad[1]} bits wide", f"declared with {bad[2]} bits in the text", name)
+      return "violation"
     setters = {r: eval(f"lambda s, v: s.{r[2:]}.__imatmul__(v)") for r, w, _ in imap}
     getters = {r: eval(f"lambda s: int(s.{r[2:]})") for r, w, _ in omap}
     state = None
@@ -381,4 +398,10 @@ def class_vectors(imap):
     out.append(v)
     v2 = {x: 0xFF for x in names}; v2[r] = 0x2
     out.append(v2)
+  # every bit of every port: all ones, the top bit alone, alternating patterns (the harness masks a value to the port width)
+  widths = {r: w for r, w, _ in imap}
+  out.append({r: (1 << widths[r]) - 1 for r in names})
+  out.append({r: 1 << (widths[r] - 1) for r in names})
+  out.append({r: int("a5" * 16, 16) + k for k, r in enumerate(names)})
+  out.append({r: int("5a" * 16, 16) ^ (k << (widths[r] // 2)) for k, r in enumerate(names)})
   return out
